@@ -81,7 +81,18 @@ Inductive op :=
 | CWrite (k i : nat) (c : ascii)                    (* client: h_k[i] = c *)
 | CAppend (k : nat) (d : list ascii) (extra : nat)  (* client: h_k = append(h_k, d...) *)
 | CSetUnbuf (k : nat) (d : list ascii) (extra : nat)(* client: h_k = append(h_k[:0], d...)  (unbuffered Set on that field) *)
-| OBufferizeFrom (k : nat) (extra : nat)            (* Bufferize[String](h_k): a value handed out earlier is fed back in *).
+| OBufferizeFrom (k : nat) (extra : nat)            (* Bufferize[String](h_k): a value handed out earlier is fed back in *)
+| OCopyInto (fields : list (bool * list ascii)) (extra : nat)
+                                                     (* CopyTo into a NON-fresh destination: the object that received the previous
+                                                        CopyTo of that type, its fields still holding what was handed out then,
+                                                        while the earlier values are still held elsewhere (by-value copies: the
+                                                        holders in the log).  cpy does not look at the old content of a string or
+                                                        []byte field: it Bufferizes into a new region, exactly as OCopyTo. *)
+| OAssignBytesInto (k : nat) (d : list ascii) (extra : nat)
+                                                     (* buffered Assign/Set into the []byte field that currently holds h_k (stale
+                                                        or live), h_k itself being still held elsewhere: the buffered branch of
+                                                        AssignToBytes ignores the destination's old content, exactly as OAssignBytes;
+                                                        a NEW value is handed out, h_k is not touched *).
 
 Section Step.
 Variable tight : bool.
@@ -185,6 +196,12 @@ Definition step (st : state) (o : op) : state :=
       else st
     | None => st
     end
+  | OCopyInto fs e =>
+    let '(h', bb', xs) := copy_fields h bb fs e in
+    {| st_heap := h'; st_bb := release bb bb'; st_log := lg ++ xs |}
+  | OAssignBytesInto _ d e =>
+    let '(h', bb', x) := bufferize1 h bb false d e in
+    {| st_heap := h'; st_bb := release bb bb'; st_log := lg ++ [x] |}
   end.
 
 (* NewByteBuffer(size) *)
